@@ -360,8 +360,7 @@ def mkJobs (psteps : List PStep) (l : List (List Bytes × List Bytes)) : List Jo
 
 /-- recordMeta on a state: new packers are queued -/
 def St.record (psteps : List PStep) (s : St) (b : MetaBlob) : St :=
-  match recordMeta P s.heap b with
-  | (h, js) => { s with heap := h, jobs := s.jobs ++ mkJobs psteps js }
+  { s with heap := (recordMeta P s.heap b).1, jobs := s.jobs ++ mkJobs psteps (recordMeta P s.heap b).2 }
 
 /-! ## makePackedMetaBlob (meta.go:113) -/
 
